@@ -169,7 +169,7 @@ CLAIMED = {
     ),
     "C12": dict(
         text="Symbolic execution of the real Constant constructor: the initializer is an UNBOUNDED symbolic integer "
-        "(or n/den with unbounded n, den in {2,3,5,7,10}; or largest-finite + n/den for floats; or a string of 0..2 "
+        "(or n/den with unbounded n, den in {2,3,5,7,10, 2**60, 2**53+1} - the last two with near-integer concrete witnesses, as float() is modelled over the reals; or largest-finite + n/den for floats; or a string of 0..2 "
         "symbolic characters) for every width 1..64 x signedness x cast mode; accepted <=> the Specification's range "
         "rule and the stored value equals the initializer exactly; 23 listed initializer strings (lone surrogates, Latin-1, "
         "combining marks) for six types, because str.encode is a C boundary where the engine realises.",
